@@ -189,7 +189,8 @@ def _run_route(ctx, case) -> F.Outcome:
     import os
     import yaml
 
-    route, pmap, ti, exists = case
+    route, pmap, ti, exists = case[:4]
+    via_symlink = len(case) > 4 and case[4]
     target = TARGETS[ti]
     rel = _resolved(target)
     zd = _setup(pmap, target, exists)
@@ -213,6 +214,12 @@ def _run_route(ctx, case) -> F.Outcome:
             yaml.dump({"template_pattern_map": {PATTERNS[pi]: f"t{pi}.zot" for pi in pmap},
                        "vim_exe": str(ed), "keep_alive_file": str(zd.parent / "keep-alive")}, f, sort_keys=False)
         os.environ["ZORG_VERIF_SNAP"] = str(snap)
+        real_zd = zd
+        if via_symlink:
+            # the notes directory is reached through a symbolic link (e.g. ~/org -> ~/Dropbox/org)
+            link = zd.parent / "linked-org"
+            link.symlink_to(zd, target_is_directory=True)
+            zd = link
         if route == "edit":
             r = H.run_cli(zd, "edit", target, cfg=cfg, day=DAY)
             at_open = (snap / Path(rel).name).read_bytes() if (snap / Path(rel).name).exists() else None
@@ -235,7 +242,9 @@ def _run_route(ctx, case) -> F.Outcome:
             problem = ("nothing-written-although-a-pattern-matches", {})
         elif content is not None and at_open is not None and at_open.decode() != content:
             problem = ("content-differs-from-first-matching-template", {"expected": content, "observed": at_open.decode()})
-        if problem is None and route == "open" and Z.cli_ok(r) and f"EDIT {path}" not in r.out:
+        zd = real_zd
+        if problem is None and route == "open" and Z.cli_ok(r) and not any(
+                f"EDIT {d / rel}" in r.out for d in ({real_zd, real_zd.parent / "linked-org"} if via_symlink else {real_zd})):
             problem = ("page-link-not-opened", {"stdout": r.out[-300:]})
         out.obs = H.digest([at_open, Z.cli_ok(r)])
         if exists or content is not None:
@@ -437,6 +446,10 @@ def _cases(ctx):
             for ti in (0, 1, 2, 3, 5, 7):
                 for exists in (False, True):
                     cases.append([route, pmap, ti, exists])
+        for pmap in ([0], [2], [3], [1, 0], [8]):
+            for ti in (0, 1, 2, 5):
+                for exists in (False, True):
+                    cases.append([route, pmap, ti, exists, True])
     return cases
 
 
@@ -445,7 +458,8 @@ def _sample(case):
         return {"two_initialisations_in_one_process": [TARGETS[case[2]], "notes.zo"], "via": case[1]}
     if case[0] in ("edit", "open"):
         return {"via": "zorg edit TARGET (stand-in editor)" if case[0] == "edit" else "zorg action open on a line with [[TARGET]]",
-                "pattern_map_in_order": [PATTERNS[pi] for pi in case[1]], "target": TARGETS[case[2]], "target_exists": case[3]}
+                "pattern_map_in_order": [PATTERNS[pi] for pi in case[1]], "target": TARGETS[case[2]], "target_exists": case[3],
+                "notes_directory_reached_through_a_symlink": len(case) > 4 and case[4]}
     if case[0] == "two":
         return {"two_initialisations_in_one_process": case[1], "templates": ["work/log.zot", "home/log.zot", "log.zot"]}
     mode, pmap, ti, exists, overwrite, explicit, vi = case
